@@ -51,7 +51,11 @@ def small_int(shape, salt=0):
     k = np.arange(n)
     return np.asarray((((k * 7 + salt * 3) % 11) - 5).reshape(shape), dtype=np.float64)
 
-PATTERNS = {"generic": generic, "positive": positive, "prob": prob, "with_zeros": with_zeros, "ties": ties}
+def offset(shape, salt=0, seed=None):
+    """spread ~1 around a mean of 1e5 (cancellation-prone for one-pass variance formulas)"""
+    return 1e5 + generic(shape, salt, seed)
+
+PATTERNS = {"offset": offset, "generic": generic, "positive": positive, "prob": prob, "with_zeros": with_zeros, "ties": ties}
 
 def make(pattern, shape, salt=0):
     return PATTERNS[pattern](tuple(shape), salt)
